@@ -85,7 +85,9 @@ func genPrimes(r *rand.Rand, bits, n int) []*big.Int {
 			todo -= b
 			prod.Mul(prod, ps[i])
 		}
-		if prod.BitLen() != bits {
+		// exact length, and the second-highest bit set: N >= 0.75 * 2^bits, so that a forged
+		// encoding with bit (bits-1) set is below N for about half of the salts / seeds
+		if prod.BitLen() != bits || prod.Bit(bits-2) != 1 {
 			continue
 		}
 		distinct := true
@@ -479,6 +481,15 @@ func (x *executor) exec(s step) result {
 			out = forgeEnc(kp, s.Forge, x.msg, x.r)
 		case "ForgeSig":
 			out, err = forgeSig(kp, s.Forge, h, digestBytes("same", s.Dlen), x.r)
+		case "ForgePSS":
+			out, err = forgePSS(kp, s.Forge, h, digestBytes("same", s.Dlen), s.Smode, s.Sn, x.r)
+		case "ForgeOAEP":
+			x.msg = make([]byte, s.Mlen)
+			x.r.Read(x.msg)
+			if len(x.msg) > 0 {
+				x.msg[0] = 0xff // neither 00 nor 01: a missing separator cannot be "found" inside M
+			}
+			out, err = forgeOAEP(kp, s.Forge, h, []byte(s.Label), x.msg, x.r)
 		case "DecPKCS1":
 			if useS {
 				out, err = stdrsa.DecryptPKCS1v15(nil, kp.s, x.object)
@@ -526,7 +537,7 @@ func (x *executor) exec(s step) result {
 		res.Msg = err.Error()
 	}
 	switch s.Op {
-	case "EncPKCS1", "EncOAEP", "SignPKCS1", "SignPSS", "ForgeEnc", "ForgeSig":
+	case "EncPKCS1", "EncOAEP", "SignPKCS1", "SignPSS", "ForgeEnc", "ForgeSig", "ForgePSS", "ForgeOAEP":
 		if err != nil {
 			res.Outcome = "error"
 		} else {
@@ -659,6 +670,136 @@ func forgeSig(kp *keyPair, kind string, h crypto.Hash, digest []byte, r *rand.Ra
 		obs.Fatal("forged signature does not open to the forged encoding")
 	}
 	return forged, nil
+}
+
+// forgePSS starts from a genuine EMSA-PSS encoding (standard-library signature opened with the
+// public operation), damages one structural element and applies the private operation.
+func forgePSS(kp *keyPair, kind string, h crypto.Hash, digest []byte, smode string, sn int, r *rand.Rand) ([]byte, error) {
+	if kp.s == nil {
+		obs.Fatal("forged PSS signatures need the standard library")
+	}
+	bits := kp.z.N.BitLen()
+	k := (bits + 7) / 8
+	emLen := (bits - 1 + 7) / 8
+	hLen := h.Size()
+	sLen := sn
+	if smode == "eqhash" {
+		sLen = hLen
+	}
+	psLen := emLen - hLen - sLen - 2
+	if psLen < 2 {
+		obs.Fatal("forgePSS: padding string too short (%d)", psLen)
+	}
+	for try := 0; try < 400; try++ {
+		sig, err := stdrsa.SignPSS(r, kp.s, h, digest, &stdrsa.PSSOptions{SaltLength: saltOpt(smode, sn)})
+		if err != nil {
+			return nil, err
+		}
+		v := new(big.Int).Exp(new(big.Int).SetBytes(sig), kp.z.E, kp.z.N)
+		if v.BitLen() > bits-1 {
+			obs.Fatal("opened PSS signature is not below 2^(modBits-1)")
+		}
+		em := v.FillBytes(make([]byte, k))
+		off := k - emLen // 1 iff modBits = 1 mod 8
+		if em[k-1] != 0xbc {
+			obs.Fatal("opened PSS signature has no BC trailer")
+		}
+		switch kind {
+		case "topbit":
+			v.SetBit(v, bits-1, 1)
+			if v.Cmp(kp.z.N) >= 0 {
+				continue // retry with a fresh salt
+			}
+			em = v.FillBytes(make([]byte, k))
+		case "trailer":
+			em[k-1] = 0xbd
+		case "ps":
+			em[off+1] ^= 0x08
+		case "sep":
+			em[off+psLen] ^= 0x03
+		case "hash":
+			em[off+emLen-hLen-1] ^= 0x01
+		default:
+			obs.Fatal("unknown forged PSS kind %q", kind)
+		}
+		forged := rawPrivate(kp, em)
+		// abstraction check: the public operation gives back the damaged encoding
+		if !bytes.Equal(rawPublic(kp, forged), em) {
+			obs.Fatal("forged PSS signature does not open to the forged encoding")
+		}
+		return forged, nil
+	}
+	obs.Fatal("forgePSS: no salt gave an encoding below the modulus")
+	return nil, nil
+}
+
+func mgf1(h crypto.Hash, seed []byte, n int) []byte {
+	var out []byte
+	for c := uint32(0); len(out) < n; c++ {
+		hh := h.New()
+		hh.Write(seed)
+		hh.Write([]byte{byte(c >> 24), byte(c >> 16), byte(c >> 8), byte(c)})
+		out = hh.Sum(out)
+	}
+	return out[:n]
+}
+
+func xorBytes(a, b []byte) []byte {
+	out := make([]byte, len(a))
+	for i := range a {
+		out[i] = a[i] ^ b[i]
+	}
+	return out
+}
+
+// forgeOAEP builds an EME-OAEP encoding from scratch (RFC 8017 7.1.1 with the standard library's
+// hash as MGF1 core), with one structural element damaged, and applies the public operation.
+// kind "genuine" is a correct encoding: it must decrypt, which checks this constructor.
+func forgeOAEP(kp *keyPair, kind string, h crypto.Hash, label, msg []byte, r *rand.Rand) ([]byte, error) {
+	k := (kp.z.N.BitLen() + 7) / 8
+	hLen := h.Size()
+	psLen := k - len(msg) - 2*hLen - 2
+	if psLen < 1 {
+		obs.Fatal("forgeOAEP: no room for a padding string")
+	}
+	hh := h.New()
+	hh.Write(label)
+	lHash := hh.Sum(nil)
+	for try := 0; try < 400; try++ {
+		seed := make([]byte, hLen)
+		r.Read(seed)
+		db := append([]byte{}, lHash...)
+		db = append(db, make([]byte, psLen)...)
+		db = append(db, 1)
+		db = append(db, msg...)
+		y := byte(0)
+		switch kind {
+		case "genuine":
+		case "y":
+			y = 1
+		case "lhash":
+			db[0] ^= 0x01
+		case "nosep":
+			db[hLen+psLen] = 0
+		case "ps":
+			db[hLen] = 0x02
+		default:
+			obs.Fatal("unknown forged OAEP kind %q", kind)
+		}
+		maskedDB := xorBytes(db, mgf1(h, seed, len(db)))
+		maskedSeed := xorBytes(seed, mgf1(h, maskedDB, hLen))
+		em := append([]byte{y}, maskedSeed...)
+		em = append(em, maskedDB...)
+		if len(em) != k {
+			obs.Fatal("forged OAEP EM has length %d, want %d", len(em), k)
+		}
+		if new(big.Int).SetBytes(em).Cmp(kp.z.N) >= 0 {
+			continue // retry with a fresh seed
+		}
+		return rawPublic(kp, em), nil
+	}
+	obs.Fatal("forgeOAEP: no seed gave an encoding below the modulus")
+	return nil, nil
 }
 
 // ---- malformed public keys (Z only) ----
